@@ -157,6 +157,14 @@ def _inequality(contract, oid, funcs, cl, hyps, inputs, rng, shape):
         b = b * len(a)
     t1 = time.time()
     tot = 0.0
+    # vacuity canary: hypotheses + axioms of the context symbols must be satisfiable (the goal 0<0 must be refuted)
+    try:
+        r0, _, dt0 = alg.nra_solve(hyps, ('<', sp.Integer(0), sp.Integer(0)), timeout_ms=20000)
+    except Unsupported:
+        r0, dt0 = 'unknown', 0.0
+    tot += dt0
+    if r0 == 'unsat':
+        return ob(oid, 'fault', functions=funcs, tier='P', backend='z3-nra', detail='vacuity canary: hypotheses and symbol axioms are contradictory', time_s=tot)
     for k, (x, y) in enumerate(zip(a, b)):
         x = x if isinstance(x, sp.Basic) else alg.exact(x); y = y if isinstance(y, sp.Basic) else alg.exact(y)
         xr, xi = sp.expand(x).as_real_imag(); yr, yi = sp.expand(y).as_real_imag()
@@ -181,7 +189,7 @@ def _inequality(contract, oid, funcs, cl, hyps, inputs, rng, shape):
             return ob(oid, 'undecided', functions=funcs, tier='P', backend='z3-nra', time_s=tot,
                       detail=f'entry {k}: z3 returned a real-arithmetic model that the native run does not confirm (axioms of transcendental symbols are weaker than the functions): undecided')
         return ob(oid, 'undecided', functions=funcs, tier='P', backend='z3-nra', time_s=tot, detail=f'entry {k}: solver unknown/timeout')
-    return ob(oid, 'proved', functions=funcs, tier='P', backend='z3-nra', time_s=tot, entries=len(a))
+    return ob(oid, 'proved', functions=funcs, tier='P', backend='z3-nra', time_s=tot, entries=len(a), canary_negated_clause_refuted=(r0 == 'sat'))
 
 
 def _rand_assign(rng, syms, k):
@@ -252,7 +260,12 @@ def verify_identity(contract, shape, tier, rng, crosscheck=2, bounded_samples=0)
             continue
         dt = time.time() - t1
         if bad is None:
-            out.append(ob(oid, 'proved', functions=funcs, tier='P', backend='sympy-exact-identity', time_s=dt, entries=len(a)))
+            # vacuity canary: the same clause with its first entry shifted by one must NOT normalise to zero (axiom rewriting consistent)
+            x0 = a[0] if isinstance(a[0], sp.Basic) else alg.exact(a[0]); y0 = b[0] if isinstance(b[0], sp.Basic) else alg.exact(b[0])
+            if is_zero(x0 - y0 + 1):
+                out.append(ob(oid, 'fault', functions=funcs, tier='P', backend='sympy', detail='vacuity canary: clause shifted by one still normalises to zero (inconsistent rewriting axioms)'))
+                continue
+            out.append(ob(oid, 'proved', functions=funcs, tier='P', backend='sympy-exact-identity', time_s=dt, entries=len(a), canary_negated_clause_refuted=True))
             continue
         # refuted symbolically: look for a concrete failing input and replay it natively
         k, d = bad
